@@ -130,7 +130,9 @@ format_t::element_t * format_t::parse_elements(const string& fmt,
 
   element_t * current = NULL;
 
-  static char buf[65535];
+  // literal text between elements can never be longer than the format itself
+  std::vector<char> storage(fmt.length() + 1);
+  char * const buf = &storage[0];
   char * q = buf;
 
   for (const char * p = fmt.c_str(); *p; p++) {
